@@ -62,6 +62,10 @@ SPEC = dict(
           "passes 48 h after the first hold (10 histories), the 2 histories of the recorded finding, 1 conflict history; 40 random "
           "histories. The same table / HeldSnaps / clock observations and the same monitor as the holds driver; the monitor keeps its "
           "own episode starts and allows a hold record to disappear only after proceed, an accepted refresh request, or a refused hold. "
+          "Refresh selection: the holds driver also calls snapsToRefresh (auto-refresh phase 2) on a task whose candidates are all "
+          "snaps, the requests driver also issues snapstate.UpdateMany without names, general and with Flags.IsAutoRefresh (every "
+          "installed snap has an update in the fake store): the snaps it goes on with must be exactly the candidates not reported "
+          "by HeldSnaps at that level just before (monitor) and equal the model's refresh_targets. "
           "hooks driver (overlord/hookstate, gateAutoRefreshHookSuite fixtures, clock set through an overlay-only export shim): real runs "
           "of snap-a's gate-auto-refresh hook through the HookManager, the hook body being a script of real `snapctl refresh --hold` / "
           "`--proceed` commands (ctlcmd.Run) that exits 0 or non-zero, so the real Done/Error fallbacks run; fixed part: hold, 24 h, hold, "
